@@ -772,6 +772,12 @@ func (m *MapPollard) undoDeletion(proof Proof, hashes []Hash) error {
 		proofPos = translatePositions(proofPos, TreeRows(m.NumLeaves), m.TotalRows)
 	}
 
+	// Hashes after the needed ones are not used. Verify and Modify ignore them as well
+	// and the proof MUST be the one that was passed to the Modify that is being undone.
+	if len(proof.Proof) > len(proofPos) {
+		proof.Proof = proof.Proof[:len(proofPos)]
+	}
+
 	if len(proofPos) != len(proof.Proof) {
 		if !m.Full {
 			return fmt.Errorf("Can't undo as the passed in proof is not valid and " +
